@@ -15,9 +15,16 @@ def call_bin(series, n_bins, method, container="polars"):
     from model_diagnostics._utils.binning import bin_feature
 
     feat = series
-    if container in ("list", "tuple"):
+    if container in ("list", "tuple", "list_npint_first"):
         feat = series.to_list()
-        feat = feat if container == "list" else tuple(feat)
+        if container == "list_npint_first":
+            import numpy as np
+
+            v0 = feat[0] if feat else None
+            fin = lambda v: v is not None and v == v and not math.isinf(v)
+            if fin(v0) and float(v0).is_integer() and any(fin(v) and not float(v).is_integer() for v in feat[1:]):
+                feat = [np.int64(int(v0))] + feat[1:]  # a list that starts with a numpy integer scalar and goes on with floats
+        feat = tuple(feat) if container == "tuple" else feat
     elif container == "numpy":
         feat = series.to_numpy()
     try:
@@ -70,7 +77,9 @@ class C13(Prop):
                 kind, vals = tc.gen_numeric_feature(rng, n)
                 fcont = "polars"
                 if kind in ("float", "float_null", "float_nan", "const", "few", "allnull") and rng.random() < 0.35:
-                    fcont = rng.choice(["list", "tuple", "numpy"])  # float columns: same dtype (Float64) whichever container
+                    fcont = rng.choice(["list", "tuple", "numpy", "list_npint_first"])  # float columns: same dtype (Float64) whichever container
+                    if fcont == "list_npint_first" and isinstance(vals[0], float) and math.isfinite(vals[0]):
+                        vals = [float(round(vals[0]))] + list(vals[1:])
                 yield {"stream": "numeric", "kind": kind, "n_bins": nb, "method": rng.choice(tc.ALL_METHODS[:2] * 3 + tc.NUMPY_METHODS), "fcontainer": fcont,
                        "feature": [None if v is None else (v if isinstance(v, int) else ("nan" if math.isnan(v) else ("inf" if v == math.inf else ("-inf" if v == -math.inf else v)))) for v in vals]}
             else:
